@@ -12,7 +12,8 @@ pub struct OCase {
     pub spec: WorldSpec,
     pub collateral: u64,
     pub borrow_frac: u32,
-    /// which oracle is doctored: 0 collateral bank, 1 debt bank
+    /// which oracle is doctored: 0 collateral bank, 1 debt bank, 2 a second collateral bank that the instruction
+    /// itself does not transact in (neither seized nor repaid)
     pub which: u8,
     /// 0 stale, 1 wrong owner, 2 wrong discriminator, 3 truncated, 4 confidence too wide, 5 partial verification,
     /// 6 other bank's oracle bytes at... (key substitution), 7 zero price, 8 negative price, 9 missing account
@@ -22,7 +23,7 @@ pub struct OCase {
 }
 
 pub fn case_strategy() -> impl Strategy<Value = OCase> {
-    (prop::collection::vec(c04_bank_strategy_pub(), 2..=2), 1_000_000u64..1_000_000_000_000, 20_000u32..60_000, 0u8..2, 0u8..10, prop_oneof![Just(1000u16), 200u16..700]).prop_map(|(mut banks, collateral, borrow_frac, which, fault, crash_pm)| {
+    (prop::collection::vec(c04_bank_strategy_pub(), 3..=3), 1_000_000u64..1_000_000_000_000, 20_000u32..60_000, 0u8..3, 0u8..10, prop_oneof![Just(1000u16), 200u16..700]).prop_map(|(mut banks, collateral, borrow_frac, which, fault, crash_pm)| {
         for b in banks.iter_mut() {
             b.init_limit = 0;
             b.emode_tag = 0;
@@ -109,6 +110,14 @@ pub fn run_case(c: &OCase, stats: &mut Stats) -> Result<(), (String, String)> {
     if w.vm.exec(&ix).is_err() {
         return Ok(());
     }
+    let cb = 2usize;
+    if c.which == 2 {
+        // second collateral position in the third bank
+        let ix = w.ix_deposit(u.accts[0], u.auth, cb, u.tokens[cb], (c.collateral / 3).max(1), None);
+        if w.vm.exec(&ix).is_err() {
+            return Ok(());
+        }
+    }
     let ix = w.ix_deposit(l.accts[0], l.auth, lb, l.tokens[lb], 1_000_000_000_000, None);
     let _ = w.vm.exec(&ix);
     // borrow by bisection-free estimate: try decreasing fractions of the liquidity
@@ -166,13 +175,21 @@ pub fn run_case(c: &OCase, stats: &mut Stats) -> Result<(), (String, String)> {
         }
     }
     // doctor one oracle
-    let bi = if c.which == 0 { ab } else { lb };
-    let other = if c.which == 0 { lb } else { ab };
+    let bi = match c.which {
+        0 => ab,
+        1 => lb,
+        _ => cb,
+    };
+    let other = if c.which == 1 { ab } else { lb };
     let mut wd_world = w.clone();
     doctor(&mut wd_world, bi, c.fault, other);
     let unusable = true;
     let fault_name = ["stale", "wrong-owner", "wrong-discriminator", "truncated", "confidence-too-wide", "partial-verification", "other-banks-oracle", "zero-price", "negative-price", "missing"][c.fault as usize];
-    let side = if c.which == 0 { "collateral" } else { "debt" };
+    let side = match c.which {
+        0 => "collateral",
+        1 => "debt",
+        _ => "other-collateral",
+    };
     for (i, (name, ixs)) in mk.iter().enumerate() {
         let mut ixs = ixs.clone();
         if c.fault == 6 {
@@ -187,7 +204,7 @@ pub fn run_case(c: &OCase, stats: &mut Stats) -> Result<(), (String, String)> {
         let must_fail = if non_positive {
             // a zero or negative price can never be used to seize collateral or size a liquidation
             // (other decisions are not claimed by the statement for an authentic non-positive price)
-            matches!((*name, c.which), ("liquidate", _) | ("receivership", 0))
+            matches!((*name, c.which), ("liquidate", 0) | ("liquidate", 1) | ("receivership", 0))
         } else {
             match (*name, c.which) {
             // every valuation of debt fails; liquidation / bankruptcy assessments fail
@@ -199,6 +216,10 @@ pub fn run_case(c: &OCase, stats: &mut Stats) -> Result<(), (String, String)> {
             // for borrowing purposes the collateral counts as worth nothing: this account's only
             // collateral is that bank, so no new borrow and no withdrawal with debt outstanding can pass
             ("borrow", 0) | ("withdraw", 0) => unusable,
+            // a collateral bank the instruction does not transact in: the liquidatee's health cannot be
+            // assessed, so every liquidation / bankruptcy assessment fails (borrow / withdraw may go on with
+            // that collateral counted as nothing: no claim)
+            ("liquidate", 2) | ("bankruptcy", 2) | ("receivership", 2) => unusable,
             _ => false,
             }
         };
@@ -213,7 +234,7 @@ pub fn run_case(c: &OCase, stats: &mut Stats) -> Result<(), (String, String)> {
     Ok(())
 }
 
-pub const RULE: &str = "instruction level: generated 2-bank worlds on Pyth oracles, a borrower (optionally made liquidatable), then borrow / withdraw / classic liquidate / bankruptcy / receivership bracket are executed with ONE doctored oracle (collateral or debt bank; stale, wrong owner, wrong discriminator, truncated, confidence > 10%, partial verification, another bank's authentic oracle in its place, zero price, negative price, missing): every one must fail (debt cannot be valued; liquidation/bankruptcy cannot be assessed; the account's only collateral counts as nothing; non-positive prices cannot seize). Non-trivial = asserted cells in worlds where at least one baseline instruction succeeded.";
+pub const RULE: &str = "instruction level: generated 3-bank worlds on Pyth oracles, a borrower (optionally made liquidatable), then borrow / withdraw / classic liquidate / bankruptcy / receivership bracket are executed with ONE doctored oracle (collateral bank, debt bank, or a second collateral bank that the instruction does not transact in; stale, wrong owner, wrong discriminator, truncated, confidence > 10%, partial verification, another bank's authentic oracle in its place, zero price, negative price, missing): every one must fail (debt cannot be valued; liquidation/bankruptcy cannot be assessed; the account's only collateral counts as nothing; non-positive prices cannot seize). Non-trivial = asserted cells in worlds where at least one baseline instruction succeeded.";
 
 pub fn run(ctx: &Ctx) -> Report {
     let cases: u32 = ctx.tier.pick(600, 60_000);
@@ -233,7 +254,7 @@ pub fn run(ctx: &Ctx) -> Report {
                     rep.nontrivial_case(&json!({"w": c.which, "f": c.fault, "c": c.crash_pm, "b": st.baseline_ok}));
                     rep.label(&format!("fault:{}:{}", c.which, c.fault));
                     if rep.samples.len() < 2 {
-                        rep.sample(json!({"instruction_level": {"doctored": if c.which == 0 { "collateral" } else { "debt" }, "fault": c.fault, "baseline_ok": st.baseline_ok}}));
+                        rep.sample(json!({"instruction_level": {"doctored": (["collateral", "debt", "other-collateral"][c.which as usize % 3]), "fault": c.fault, "baseline_ok": st.baseline_ok}}));
                     }
                 }
             }
